@@ -1,4 +1,6 @@
 """C03 — shorthand-class options generalise exactly as documented (substitution clause)."""
+import re
+
 from sa import ccp, guards, local
 from . import common
 
@@ -48,10 +50,84 @@ def cls2(ctx, lib, roles, convert_fn):
                               % (local.show(g["origin"]), g["values"]), body.loc(g["line"]))
 
 
+def cls4(ctx, lib):
+    """CLS-4: the code point handed to the class predicates ranges over *all* chars of every stored string: it is the parameter of a closure mapped over
+    str::chars() whose results are all consumed, or the item of a loop over one str::chars() iterator -- never `chars().next()` (first char only)."""
+    from sa.facts import callee_name
+    rid = "CLS-4"
+    n = 0
+    for b in lib.bodies:
+        if b.derived:
+            continue
+        pc = []
+        for bi, t in b.calls():
+            nm = callee_name(t)
+            cb = lib.body(nm) if nm else None
+            if cb is not None and cb.sig_inputs == ["char"] and cb.sig_output == "bool":
+                pc.append((bi, t, nm))
+        if len({x[2] for x in pc}) < 3:
+            continue
+        fi = guards.FnInfo.of(b)
+        loops = fi.cfg.natural_loops()
+        verdict = None
+        for bi, t, nm in pc:
+            o = fi.defs.operand(t["args"][0])
+            po = local.peel(o)
+            if b.kind == "closure" and po[0] == "param":
+                site = common.closure_site(lib, b)
+                use = None
+                if site is not None:
+                    parent, d, _ = site
+                    for bj, t2 in parent.calls():
+                        ops = [d.operand(a) for a in t2["args"]]
+                        if any(local.peel(o2)[0] == "agg" and local.peel(o2)[1] == "closure" and local.peel(o2)[2] == b.path for o2 in ops):
+                            use = (callee_name(t2) or "", ops, bj, parent, d)
+                if use is None:
+                    verdict = ("undecided", "cannot find where the deciding closure is used")
+                    break
+                cal, ops, bj, parent, d = use
+                over_chars = any(x[0] == "call" and x[1].endswith("<impl str>::chars") for x in local.walk(ops[0]))
+                if not (cal.endswith("Iterator::map") or cal.endswith("::flat_map") or cal.endswith("::for_each")) or not over_chars:
+                    verdict = ("violation", "the deciding closure is applied by %s to %s, not mapped over str::chars() of the stored string" % (cal, local.show(ops[0])[:80]))
+                    break
+                # every mapped item is consumed (join / collect / for_each / extend / sum), not just the first
+                taken = [callee_name(t3) or "" for _, t3 in parent.calls()
+                         if any(x[0] == "call" and len(x) > 3 and x[3] == bj for a in t3["args"] for x in local.walk(d.operand(a)))]
+                firsts = [c for c in taken if re.search(r"::(next|nth|last|find|take|first|position|peek|step_by|skip|any|all)$", c)]
+                if firsts:
+                    verdict = ("violation", "only part of the mapped chars is consumed (%s)" % firsts[0])
+                    break
+                verdict = verdict or ("ok", "closure parameter mapped over str::chars(), consumed by %s" % sorted({c.rsplit("::", 1)[-1] for c in taken}))
+            else:
+                nxt = [x for x in local.walk(o) if x[0] == "call" and x[1].endswith("str::Chars as std::iter::Iterator>::next")]
+                if not nxt:
+                    verdict = ("undecided", "the predicate argument %s is neither a mapped closure parameter nor an item of a str::chars() loop" % local.show(o)[:100])
+                    break
+                nb = nxt[0][3]
+                mk = [x for x in local.walk(nxt[0]) if x[0] == "call" and x[1].endswith("<impl str>::chars")]
+                mkb = mk[0][3] if mk else None
+                looping = [h for h, body in loops.items() if nb in body and (mkb is None or mkb not in body)]
+                if not looping:
+                    verdict = ("violation", "the class predicates examine `chars().next()`: only the first char of each stored string decides, the remaining chars are "
+                                            "dropped or replaced with it (a multi-scalar grapheme such as 'e'+U+0301 is treated as its first scalar)")
+                    break
+                verdict = verdict or ("ok", "item of a loop over one str::chars() iterator")
+        n += 1
+        if verdict[0] == "ok":
+            ctx.ok(rid, b.path, {"source": verdict[1], "predicate_calls": len(pc)}, b.loc())
+        elif verdict[0] == "violation":
+            ctx.violation(rid, (b.path, "char source"), verdict[1], b.loc())
+        else:
+            ctx.undecided(rid, b.path, verdict[1], b.loc())
+    ctx.floor(rid, "bodies deciding a class from three char predicates", n, 1)
+
+
 def run(ctx):
     ctx.rule("CLS-1", "ccp decision table of the class-conversion closure (6 settings x 3 predicates) equals the documented "
                       "precedence d,w,s,D,W,S on every valuation feasible for the actual Unicode tables; captured variables are traced "
                       "to the config fields written by the public setters of those classes (CLS-3)")
+    ctx.rule("CLS-4", "the char handed to the class predicates ranges over all chars of every stored string (closure mapped over str::chars() and fully consumed, or the "
+                      "item of a loop over one chars() iterator), never chars().next()")
     ctx.rule("CLS-2", "every call of the conversion pass is control dependent only on loop guards and on an enable predicate that "
                       "ccp shows to be false only if all six class settings are off")
     ctx.rule("ROLE", "each public setter writes constant true (or its parameter) to exactly the config fields of its documented roles")
@@ -59,8 +135,9 @@ def run(ctx):
     ctx.assume("tokens \\d..\\S inserted into a grapheme survive trie construction, minimisation and printing as opaque symbols (language clause not decided)")
     prog = common.view(ctx, "default")
     lib = prog.lib
-    roles = common.role_fields(ctx, lib)
+    roles = common.role_fields(ctx, lib, want=common.CLASS_ROLES)
     ctx.floor("ROLE", "class roles resolved to config fields", len([r for r in roles if r.startswith("class:")]), 6)
+    cls4(ctx, lib)
     r = common.cls1(ctx, prog, lib, roles)
     if r is None:
         return
